@@ -137,3 +137,23 @@ Definition racy_append_pair (h : heap) (a : nat) (x y : Z) : list Z * list Z :=
         (rd_slice arrs2 r, rd_slice arrs2 r)
       else (rd_slice (h_arrs h) s ++ [x], rd_slice (h_arrs h) s ++ [y])
   end.
+
+(* ------------------------------------------------------------------ a constant that is a CLOSURE with a captured cell *)
+
+(* Pure built-ins that return closures (createLowPass, createInterpolation, linearReg) are folded at Generate time:
+   the Go closure and everything it captured is a constant shared by all evaluations.  As the code is, they
+   capture immutable data only (frozen, in the sense of the theorems).  The shape that breaks C11 is a captured
+   MUTABLE cell - e.g. an "interval of the previous call" hint in an interpolation closure:
+       check   if x is not in interval *last then *last = search(x)
+       use     interpolate with points[*last], points[*last+1]
+   Two evaluations sharing the cell: A checks, B checks (stores its interval), A uses B's interval. *)
+Definition find_interval (xs : list Z) (x : Z) : nat := length (filter (fun p => Z.leb p x) xs) - 1.
+Definition in_interval (xs : list Z) (i : nat) (x : Z) : bool := Z.leb (nth i xs 0%Z) x && Z.ltb x (nth (S i) xs 0%Z).
+Definition hint_check (xs : list Z) (x : Z) (last : nat) : nat := if in_interval xs last x then last else find_interval xs x.
+Definition hint_use (ys : list Z) (last : nat) : Z := nth last ys 0%Z.       (* the value of the interval's left end *)
+
+(* isolated: check, then use *)
+Definition lookup_isolated (xs ys : list Z) (x : Z) (last : nat) : Z := hint_use ys (hint_check xs x last).
+(* schedule  A.check ; B.check ; A.use  on the shared cell *)
+Definition lookup_interleaved (xs ys : list Z) (xa xb : Z) (last : nat) : Z :=
+  let l1 := hint_check xs xa last in let l2 := hint_check xs xb l1 in hint_use ys l2.
